@@ -189,7 +189,7 @@ def stage_node(ctx, e):
                     item = q.get(timeout=0.001)
                     if item is None:
                         if q.deferred_size:
-                            q._deferrals = [(0, *d[1:]) for d in q._deferrals]
+                            q._deferrals = [(k * 1e-9, *d[1:]) for k, d in enumerate(q._deferrals)]
                             continue
                         break
                     item[0]()
@@ -339,5 +339,5 @@ def run(ctx):
 
 
 def replay(ctx, path):
-    print(json.dumps(json.load(open(path)), indent=1)[:3000])
-    return 1
+    import sys
+    return common.replay_by_rerun(ctx, path, sys.modules[__name__])
